@@ -15,6 +15,27 @@ func (x *Explorer) enter(fr *frame, from, b *ssa.BasicBlock) {
 	li := x.loopsOf(fr.fn)
 	n := fr.visits[b]
 	lm := li.heads[b]
+	if lm != nil && len(fr.cands) > 0 && from != nil && lm.body[from] && n >= 1 {
+		// candidate invariants "phi >= c0" assumed at generalisation: each back edge has to re-establish them
+		for _, in := range b.Instrs {
+			phi, ok := in.(*ssa.Phi)
+			if !ok {
+				break
+			}
+			c0, isCand := fr.cands[phi]
+			if !isCand {
+				continue
+			}
+			for k, p := range b.Preds {
+				if p == from {
+					nv := x.eval(fr, phi.Edges[k])
+					if !x.ProveLeq(x.T.Int(c0), nv) && x.Opts.OnInvariantFail != nil {
+						x.Opts.OnInvariantFail(x, fr.fn, phi, nv)
+					}
+				}
+			}
+		}
+	}
 	if lm != nil && x.Opts.OnBackEdge != nil && from != nil && lm.body[from] && n >= 1 {
 		var phis []*ssa.Phi
 		var oldT, newT []*Term
@@ -260,7 +281,15 @@ func (x *Explorer) pure(fr *frame, in ssa.Instruction, pre bool) *Term {
 	case *ssa.FieldAddr:
 		return x.T.mk(Term{Kind: KFieldAddr, Var: fieldOf(v), Args: []*Term{x.eval(fr, v.X)}, Type: v.Type()})
 	case *ssa.IndexAddr:
-		return x.T.mk(Term{Kind: KIndexAddr, Args: []*Term{x.eval(fr, v.X), x.eval(fr, v.Index)}, Type: v.Type()})
+		base, idx := x.eval(fr, v.X), x.eval(fr, v.Index)
+		// b[lo:][i] addresses b[lo+i]: one canonical address per element, whatever sub-slices the code went through
+		if base.Kind == KSlice && isSliceTyped(base.Args[0]) && base.Args[3].Kind == KNone {
+			if base.Args[1].Kind != KNone {
+				idx = x.Bin(token.ADD, x.stripWiden(base.Args[1]), x.stripWiden(idx), types.Typ[types.Int])
+			}
+			base = base.Args[0]
+		}
+		return x.T.mk(Term{Kind: KIndexAddr, Args: []*Term{base, idx}, Type: v.Type()})
 	case *ssa.Field:
 		a := x.eval(fr, v.X)
 		return x.fieldOfValue(a, fieldOf(v), v.Type())
@@ -296,6 +325,26 @@ func (x *Explorer) pure(fr *frame, in ssa.Instruction, pre bool) *Term {
 		if v.Max != nil {
 			args[3] = x.eval(fr, v.Max)
 		}
+		// b[lo1:hi1][lo2:hi2] is b[lo1+lo2 : lo1+hi2] (hi1 when hi2 is absent)
+		if in := args[0]; in.Kind == KSlice && isSliceTyped(in.Args[0]) && in.Args[3].Kind == KNone && args[3].Kind == KNone {
+			intT := types.Typ[types.Int]
+			lo1, hi1 := in.Args[1], in.Args[2]
+			lo, hi := args[1], args[2]
+			switch {
+			case lo1.Kind == KNone:
+			case lo.Kind == KNone:
+				lo = lo1
+			default:
+				lo = x.Bin(token.ADD, x.stripWiden(lo1), x.stripWiden(lo), intT)
+			}
+			switch {
+			case hi.Kind == KNone:
+				hi = hi1
+			case lo1.Kind != KNone:
+				hi = x.Bin(token.ADD, x.stripWiden(lo1), x.stripWiden(hi), intT)
+			}
+			args = []*Term{in.Args[0], lo, hi, none}
+		}
 		return x.T.mk(Term{Kind: KSlice, Args: args, Type: v.Type()})
 	case *ssa.Extract:
 		tup := x.eval(fr, v.Tuple)
@@ -328,6 +377,11 @@ func (x *Explorer) extract(tup *Term, i int, typ types.Type) *Term {
 	if tup.Kind == KSliceLit && tup.Op == token.COMMA { // tuple of inlined results
 		if i < len(tup.Args) {
 			return tup.Args[i]
+		}
+	}
+	if typ == nil && tup.Type != nil {
+		if tt, ok := tup.Type.(*types.Tuple); ok && i < tt.Len() {
+			typ = tt.At(i).Type()
 		}
 	}
 	return x.T.mk(Term{Kind: KExtract, Args: []*Term{tup}, N: i, Type: typ})
@@ -415,8 +469,19 @@ func (x *Explorer) load(addr *Term, typ types.Type) *Term {
 	if x.Opts.RecordLoads {
 		x.events = append(x.events, Event{Kind: EvLoad, Addr: addr, Val: t, NLits: len(x.lits)})
 	}
+	if x.Opts.OnFreshLoad != nil && !x.inFreshLoad {
+		x.inFreshLoad = true
+		x.Opts.OnFreshLoad(x, addr, t)
+		x.inFreshLoad = false
+	}
 	return t
 }
+
+// StoreNow sets the cell at addr in the current path state (for call summaries supplied by rule hooks).
+func (x *Explorer) StoreNow(addr, val *Term) { x.setMem(addr, val) }
+
+// LoadNow reads the cell at addr in the current path state (for rule hooks).
+func (x *Explorer) LoadNow(addr *Term, typ types.Type) *Term { return x.load(addr, typ) }
 
 // unkTerm marks a cell whose content was invalidated (next load is fresh).
 var unkTerm = &Term{Kind: KNone, ID: -1}
@@ -502,6 +567,7 @@ func (x *Explorer) seedLoopInvariants(fr *frame, b *ssa.BasicBlock, lm *loopMod,
 		}
 		var c0 int64
 		haveC0, good := false, true
+		cand := false
 		step := int64(0)
 		for i, e := range phi.Edges {
 			inside := lm.body[b.Preds[i]]
@@ -521,6 +587,12 @@ func (x *Explorer) seedLoopInvariants(fr *frame, b *ssa.BasicBlock, lm *loopMod,
 				continue
 			}
 			lo, _, okStep := stepOf(e, phi, 0, map[ssa.Value]bool{})
+			if !okStep && x.Opts.OnInvariantFail != nil {
+				// not phi + constant (e.g. off += n): keep "phi >= c0" as a candidate that every back edge must re-establish
+				cand = true
+				step = -1
+				continue
+			}
 			if !okStep || lo < 0 {
 				good = false
 				break
@@ -534,6 +606,12 @@ func (x *Explorer) seedLoopInvariants(fr *frame, b *ssa.BasicBlock, lm *loopMod,
 		}
 		if !good || !haveC0 {
 			continue
+		}
+		if cand {
+			if fr.cands == nil {
+				fr.cands = map[*ssa.Phi]int64{}
+			}
+			fr.cands[phi] = c0
 		}
 		x.tighten(t, c0, true)
 		// upper invariant from the loop test
@@ -731,4 +809,13 @@ func (x *Explorer) seedPairInvariants(fr *frame, blk *ssa.BasicBlock, lm *loopMo
 			}
 		}
 	}
+}
+
+// isSliceTyped: the term is a slice value (not a string, array or array pointer).
+func isSliceTyped(t *Term) bool {
+	if t == nil || t.Type == nil {
+		return false
+	}
+	_, ok := t.Type.Underlying().(*types.Slice)
+	return ok
 }
